@@ -73,7 +73,7 @@ def select_one_or_select_many_or_infer(quantifier: Union[Type[An], Type[The], Ty
         entity_ = has_type()
     if isinstance(entity_, (Entity, SetOf)):
         q = quantifier(entity_)
-    elif isinstance(entity_, ResultQuantifier) and not properties:
+    elif isinstance(entity_, quantifier) and not properties:
         q = entity_
     elif isinstance(entity_, CanBehaveLikeAVariable):
         q = quantifier(entity(entity_, *properties))
